@@ -671,9 +671,15 @@ PLAN['C06']['bounds'] = {k: v + '; every (undone block, next block) pair continu
 
 def mapalg(tier):
     q = tier == 'quick'
-    return {'kind': 'spec_check', 'name': 'mapforestalg_refines', 'module': 'MapForestAlg', 'spec': 'MSpec',
-            'constants': {'MaxN': 10 if q else 12, 'MaxAdds': 5 if q else 6}, 'invariants': ['MapRefines'],
+    return {'kind': 'spec_check', 'name': 'mapforestalg_refines', 'module': 'MapForestAlg', 'spec': 'MUSpec',
+            'constants': {'MaxN': 8 if q else 10, 'MaxAdds': 4 if q else 5, 'UVariant': '"ok"'}, 'invariants': ['MapRefines'],
             'timeout': 900 if q else 7200}
+
+
+def mapalg_neg(tier):
+    return {'kind': 'spec_check', 'name': 'mapforestalg_undo_neg', 'module': 'MapForestAlg', 'spec': 'MUSpec',
+            'constants': {'MaxN': 6, 'MaxAdds': 3, 'UVariant': '"noempty"'}, 'invariants': ['MapRefines'],
+            'expect_violation': True, 'timeout': 600}
 
 
 for _p in ('C01', 'C10'):
@@ -864,3 +870,13 @@ PREFIX_RULE = (' Stage light_prefix: the same behaviours with leaf hashes that s
 for _p, _acts in (('C07', ['block']), ('C08', ['block', 'undoblock'])):
     PLAN[_p]['stages'] = (lambda f, a: (lambda tier, seed: f(tier, seed) + [light_prefix(tier, a)]))(PLAN[_p]['stages'], _acts)
     PLAN[_p]['rule'] += PREFIX_RULE
+
+
+# --------------------------------------------------------------------------- C06: the undo algorithm of the map forest at spec level
+PLAN['C06']['stages'] = (lambda f: (lambda tier, seed: [mapalg(tier), mapalg_neg(tier)] + f(tier, seed)))(PLAN['C06']['stages'])
+PLAN['C06']['rule'] += (' Spec level: spec/MapForestAlg.tla also models Undo as the map forest does it (additions taken back newest first: '
+                        'created parents removed, a subtree that had moved up over an empty root moved back down and the empty root put '
+                        'back; deletions taken back in the reverse order of their removal: the sibling subtree moved back down, the deleted '
+                        'subtree rebuilt from the deleted leaf hashes, ancestors re-hashed) and TLC checks that after Undo the map is again '
+                        'the one Forest!Nodes prescribes for the state before the block, for every block of every reachable state; the '
+                        'variant that does not put the empty root back is refuted (negative demonstration).')
